@@ -184,6 +184,31 @@ fn main() {
         println!("REJECTED:\n{}", &m[..m.len().min(3000)]);
       }
     }
+    "planart" => {
+      // dev: planart <artifact.json> <pass,pass,...|unopt|all> : compile with a plan (VERIF_DUMP_MIR=1 prints the MIR), validate, run
+      let art: serde_json::Value = serde_json::from_str(&std::fs::read_to_string(&args[1]).unwrap()).unwrap();
+      let art = art.get("artifact").cloned().unwrap_or(art);
+      let (mods, entry) = sv::props::run_common::mods_of(&art);
+      let plan = match args[2].as_str() {
+        "unopt" => sv::model::exec::Plan::Unoptimized,
+        "all" => sv::model::exec::Plan::Config([true; 5]),
+        "none" => sv::model::exec::Plan::Config([false; 5]),
+        p => sv::model::exec::Plan::Passes(p.split(',').map(|x| x.to_string()).collect()),
+      };
+      match sv::model::exec::compile_with_plan(&mods, &entry, &plan) {
+        sv::model::exec::CompileOutcome::Ok(c) => {
+          println!("validation: {:?}", sv::model::exec::validate_wasm(&c.wasm));
+          if std::env::var("VERIF_DUMP_WAT").is_ok() {
+            println!("{}", c.wat);
+          }
+          let mut node = sv::engine::node::Node::spawn().expect("node");
+          let w = node.run_wasm(&c.wasm, &c.loader, &c.main, std::time::Duration::from_secs(10));
+          println!("wasm: end={} msg={:?} lines={:?}", w.end, w.message, w.lines);
+        }
+        sv::model::exec::CompileOutcome::Rejected(m) => println!("rejected: {}", &m[..m.len().min(1500)]),
+        sv::model::exec::CompileOutcome::Panicked(e) => println!("panicked: {:?}", e),
+      }
+    }
     "emitart" => {
       // dev: emitart <artifact.json> : print emitted TypeScript of an artifact
       let art: serde_json::Value = serde_json::from_str(&std::fs::read_to_string(&args[1]).unwrap()).unwrap();
